@@ -28,15 +28,15 @@ CHECKS = {
    tech=TECH + ": StreamSim (fragmenting transport), reference-model oracle at finalize"),
  "C07": dict(cat="exploration", sec="5 StreamSim",
    text="AES-GCM init/update*/finalize under arbitrary update splits (every carried-partial x fragment-residue cell reachable), both key sizes, four families, enc/dec, in/out of place, _nt under its documented rule, contexts sharing key data, mid-message restarts; output bytes and tag compared with the one-shot call of the same family; 8 runs per quick batch carry a message longer than 2^32 bytes (one-shot, one update call, pieces below 2^32 must agree).",
-   note="The one-shot entry point of the same family is the oracle (its own correctness is C02, not claimed). Key data produced by the same family's precompute.",
+   note="The one-shot entry point of the same family is the oracle (its own correctness is C02, not claimed). Key data produced by the same family's precompute or, among sse / avx_gen2 / avx_gen4, by another family's. One run in 8 is a gcmjump run: the stream position of a context is advanced by J blocks (counter and in_length, J up to 2^32 - 2^16) and two families continue from the same context bytes; outputs and tags must agree (the correct continuation is unique).",
    tech=TECH + ": StreamSim, one-shot call as reference model"),
  "C09": dict(cat="exploration", sec="5 StreamSim",
    text="Rolling-hash clients with window 1..48, frequent and rare masks, mask_gen output, three scan implementations; every run call's (match, offset) and state hash compared with the non-incremental definition over a golden copy of the table; twin clients on one stream under different splits; one >= 2^31-byte run per implementation.",
-   note="Golden table frozen in /verif at the pinned commit defines the hash; streams <= 64 KiB apart from the aliased 2 GiB window.",
+   note="Golden table frozen in /verif at the pinned commit defines the hash; streams <= 64 KiB apart from the aliased 2 GiB window. One client in 8 meets a 48-byte window whose full 64-bit hash is 0 (solved from the table) as reset window or ending exactly at a call boundary.",
    tech=TECH + ": StreamSim, executable reference model per call"),
  "C10": dict(cat="exploration", sec="5 StreamSim",
    text="As C05 for mh_sha1_murmur3_x64_128 with a 64-bit seed per stream: SHA part compared with the multi-hash model, 128-bit part with a MurmurHash3_x64_128 reference (h1=h2=seed), for every fragmentation and family sampled.",
-   note="MurmurHash3 reference checked against published vectors at start-up.",
+   note="MurmurHash3 reference checked against published vectors at start-up. Fault 'object migration': the plain-data context (also multi-hash, rolling state, GCM context) is copied mid-stream to an address with another phase within a cache line and the old copy scribbled over.",
    tech=TECH + ": StreamSim, two reference models at finalize"),
  "C08": dict(cat="exploration", sec="5 cross-cutting monitors",
    text="Memory-map monitor over a mixed batch of all workloads (hash managers on 28 pairs, mh/murmur/rolling/GCM streaming, one-shot AES client on every family): every buffer end-flush/start-flush/mid-slot against PROT_NONE pages, canaries around every range, checksums of inputs, key data and bystander objects; SIGSEGV/SIGBUS mapped to (buffer, offset, read/write). Half of the runs place a share of their buffers across, on or up to a 4 GiB-aligned address; 12 runs per quick batch are huge stream cases (updates / run calls / GCM calls of 2^31 .. 2^32+ bytes through aliased windows).",
@@ -51,31 +51,31 @@ CHECKS = {
    note="Quick: all 28 pairs cross 2^29 and 2^32 with real data (reference states cached on disk by setup); thorough: all pairs also cross 2^32+2^29. Totals near 2^33..2^60 are reached by a clock jump of ctx->total_length (a whole number of blocks added to the library's counter and to the model's length while the context is idle; 140 runs per quick batch); a run in which the library's reported total does not follow the jump is discarded, not judged.",
    tech=TECH + ": HashMgrSim long-stream workload, reference-model oracle"),
  "C18": dict(cat="exploration", sec="5 SharedStateSim",
-   text="Three deterministic single-thread mechanisms: (a) the archive's entire writable static storage (one page-aligned linked section) is write-protected before or after binding while hash-manager, streaming and one-shot workloads and real first calls run; only stores into <entry>_dispatched slots / self_test_status are admitted and logged by writer, any other store is reported with its symbol; (b) 2-6 coroutine tasks race first calls of the same or different dispatched entry points at the simulated cpuid/xgetbv yield points: results, final bindings and every intermediate slot value are checked; (c) two tasks with separate environments run workloads interleaved at call granularity and must reproduce their solo observable histories.",
+   text="Three deterministic single-thread mechanisms: (a) the archive's entire writable static storage (one page-aligned linked section) is write-protected before or after binding while hash-manager, streaming and one-shot workloads and real first calls run; only stores into <entry>_dispatched slots / self_test_status are admitted and logged by writer, any other store is reported with its symbol; (b) 2-6 coroutine tasks race first calls of the same or different dispatched entry points at the simulated cpuid/xgetbv yield points: results, final bindings and every intermediate slot value are checked, on host, SSE, AVX, AVX2 and two Avoton profiles, and no binding other than the raced ones may change; (c) two tasks with separate environments run workloads interleaved at call granularity and must reproduce their solo observable histories.",
    note="True parallel preemption inside a kernel is not simulated; the argument is that code which never writes static storage after binding has only caller-owned objects, its own stack and constants to interfere through. A second pass runs the same modes over the FIPS_MODE archive (self-tests executing under frozen statics).",
    tech=TECH + ": SharedStateSim (frozen statics fault injection, coroutine first-call races, interleaved replay vs solo)"),
 
  "C19": dict(cat="exploration", sec="5 cross-cutting monitors",
    text="Every library call of the mixed batch (hash managers, streaming objects, one-shot AES, all dispatch resolvers) runs through a trampoline that plants sentinels in rbx, rbp, r12-r15, poisons everything else and compares rsp, the sentinels, DF, MXCSR control bits, x87 CW and 64 canary bytes above the callee's frame afterwards; resolvers additionally must preserve every argument, vector and mask register.",
-   note="Exit paths are reached through histories and length classes, not enumerated from source; FIPS-build-only entry points are exercised by C13/C17 without this monitor.",
+   note="Exit paths are reached through histories and length classes, not enumerated from source; A second pass runs the monitor over the FIPS_MODE archive (gate enumeration incl. not-yet-run self-tests and a direct call of the status helper).",
    tech=TECH + ": call trampoline with sentinel registers as monitor in all simulations"),
  "C20": dict(cat="exploration", sec="5 cross-cutting monitors",
    text="Paired replay: every plan of the mixed batch is executed twice from identical schedule/transport/fault streams and addresses but different hidden seeds (output prefill, uninitialised object memory, bytes beyond len, caller-saved/vector/mask registers, flags, dead stack); the observable histories (return values, returned contexts, digests, tags, output bytes, offsets, statuses) must be identical.",
-   note="Object internals, bytes beyond len and register contents after return are deliberately not compared.",
+   note="Object internals, bytes beyond len and register contents after return are deliberately not compared. 3 runs per quick batch (28 thorough) are single CBC calls of 2^32 + 16k bytes through aliased windows whose output period is prefilled from the hidden stream.",
    tech=TECH + ": paired execution under different hidden-state seeds, history comparison"),
 
  "C12": dict(cat="exploration", sec="5 DispatchSim",
-   text="Every dispatched entry point's resolver is executed under seeded, architecturally consistent simulated CPUID/XCR0 assignments biased to fault profiles; the bound target's instruction classes (classifier over the freshly built objects, closed over calls) must be available on the simulated machine, entries sharing an object must bind one family, XGETBV must not execute without OSXSAVE, the resolver must preserve all registers, and real first calls followed by calls under another CPU must keep the binding without re-querying.",
+   text="Every dispatched entry point's resolver is executed under seeded, architecturally consistent simulated CPUID/XCR0 assignments biased to fault profiles; the bound target's instruction classes (classifier over the freshly built objects, closed over calls) must be available on the simulated machine, entries sharing an object must bind one family, XGETBV must not execute without OSXSAVE, the resolver must preserve all registers, and real first calls followed by calls under another CPU must keep the binding without re-querying; the target's symbol must name the entry point's own role, and a resolver call must leave every other entry point's binding unchanged.",
    note="Hand-written objdump classifier and SDM usability rules; feature classes the dispatchers never test are outside the quantifier; AES entry points have SSE4.1 as documented minimum.",
    tech=TECH + ": DispatchSim, simulated CPUID/XGETBV behind hook H1"),
 
  "C13": dict(cat="fault_enumeration", sec="5 FipsGateSim",
    text="FIPS_MODE=y build. Every (exported isal_* entry point x injected self-test state/fault kind) pair is enumerated (first call of run i is entry (i/6) mod N under fault kind i mod 6); order, arguments, XTS same-key variants and further injections are seeded. Oracle per call: return code per state, outputs byte-identical after a refusal, self-tests run exactly once in the first approved call, verdict recorded as PASSED/FAILED.",
-   note="Faults: _aes_self_tests/_sha_self_tests forced to fail (link-time wrap), KAT corruption of a kernel output behind a dispatch pointer (persistent or transient), preset states. isal_crypto_get_version* are called but not judged.",
+   note="Faults: _aes_self_tests/_sha_self_tests forced to fail (link-time wrap), KAT corruption of a kernel output behind a dispatch pointer (bit flip, or a short write: 12 of 16 tag bytes from the GCM streaming decrypt finalize; persistent or transient), preset states. isal_crypto_get_version* are called but not judged.",
    tech=TECH + ": FipsGateSim, enumeration of entry point x fault kind with seeded sequences"),
  "C17": dict(cat="exploration", sec="5 FipsRaceSim",
    text="FIPS_MODE=y build. 1-8 coroutine tasks race through the real check/claim/spin/publish assembly (yield points from hook H4) under seeded uniform, bursty and PCT-style schedules with injected verdicts; history oracle: self-tests entered exactly once by one task, no success return and no kernel entry before the tests finished and passed, identical verdict for every call, bounded completion after the verdict is published.",
-   note="Real self-tests (1 run in 20) run on a seeded hash family; a task that makes no progress for 10 s of CPU time is cut off and reported. Sequentially consistent interleavings at shared-access granularity, with unlocked read-modify-write instructions at the hooked points split into load and store (two bus cycles); x86-TSO store buffering not modelled. Liveness bounded in scheduling steps under a fair fallback scheduler. fips/self_tests_generic.c (non-x86, not in the x86_64 archive) is simulated as a second implementation with shimmed C11 atomics in 1 run of 4.",
+   note="Real self-tests (1 run in 20) run on a seeded hash family; a task that makes no progress for 10 s of CPU time is cut off and reported. Sequentially consistent interleavings at shared-access granularity, with unlocked read-modify-write instructions at the hooked points split into load and store (two bus cycles); x86-TSO store buffering not modelled. Liveness bounded in scheduling steps under a fair fallback scheduler. Stalled-runner fault: a spinning waiter polls 2^8..2^24 times in a row (thorough: once 2^32 + 2^20 times, 96 s) while nobody else runs, and goes on alone if it leaves the loop. fips/self_tests_generic.c (non-x86, not in the x86_64 archive) is simulated as a second implementation with shimmed C11 atomics in 1 run of 4.",
    tech=TECH + ": FipsRaceSim, coroutine scheduler over hooked synchronisation points, history oracle"),
 }
 
